@@ -1380,17 +1380,34 @@ class UnitDatabase(Singleton):
                 if used_unit_for_quantity_type is None:
                     quantity_types_found_to_used_unit[quantity_type] = unit
                 else:
-                    # don't worry about the exponent at this time, just update the unit and the related value.
+                    # update the unit and the related value (scaled according to the exponent).
                     if c is category_to_unit_and_exp1:
-                        value1 = self.Convert(
-                            quantity_type, unit, used_unit_for_quantity_type, value1
+                        value1 = self._ConvertToMatchedUnit(
+                            quantity_type, unit, used_unit_for_quantity_type, _exp, value1
                         )
                     else:
-                        value2 = self.Convert(
-                            quantity_type, unit, used_unit_for_quantity_type, value2
+                        value2 = self._ConvertToMatchedUnit(
+                            quantity_type, unit, used_unit_for_quantity_type, _exp, value2
                         )
                     unit_exp[0] = used_unit_for_quantity_type
         return category_to_unit_and_exp1, category_to_unit_and_exp2, value1, value2
+
+    def _ConvertToMatchedUnit(
+        self, quantity_type: str, from_unit: str, to_unit: str, exp: int, value: Any
+    ) -> Any:
+        """
+        Converts a value whose unit has `from_unit` raised to `exp` so that it uses `to_unit`
+        (raised to the same exponent) instead.
+        """
+        if exp == 1 or from_unit == to_unit:
+            return self.Convert(quantity_type, from_unit, to_unit, value)
+
+        # With an exponent only the ratio between the units is meaningful (an offset is not): the
+        # value must be scaled by that ratio raised to the exponent.
+        ratio = self.Convert(quantity_type, from_unit, to_unit, 1.0) - self.Convert(
+            quantity_type, from_unit, to_unit, 0.0
+        )
+        return value * ratio**exp
 
     def _DoOperationResultingInNewQuantity(
         self,
